@@ -1,0 +1,18 @@
+//go:build verif
+
+package deletionmanager
+
+import (
+	"github.com/anyproto/any-sync/app/logger"
+	"github.com/anyproto/any-sync/commonspace/deletionstate"
+	"github.com/anyproto/any-sync/commonspace/object/treemanager"
+	"github.com/anyproto/any-sync/commonspace/spacestorage"
+)
+
+// Verification hook for property C15 (/verif/harness/c15). Add-only, compiled only with
+// `-tags verif`. NewDeleterVerif exposes the constructor of the deletion worker so that
+// "one deletion-worker run" is a synchronous, schedulable step; in production the worker
+// only runs on the delete loop's goroutine.
+func NewDeleterVerif(st spacestorage.SpaceStorage, state deletionstate.ObjectDeletionState, getter treemanager.TreeManager) Deleter {
+	return newDeleter(st, state, getter, logger.NewNamed(CName))
+}
